@@ -55,6 +55,22 @@ fn main() {
             })),
         )
     });
+    // P2b: the attribute already exists in the source
+    let r2 = std::panic::catch_unwind(|| {
+        run(
+            b"<a \x83\x41=0>",
+            SHIFT_JIS,
+            Settings::new().append_element_content_handler(element!("a", |el| {
+                el.set_attribute("\u{30A2}", "1").unwrap();
+                Ok(())
+            })),
+        )
+    });
+    match r2 {
+        Ok(Ok(out)) => println!("P2b shift_jis <a \u{30A2}=0> + set_attribute(\u{30A2},1) -> {:?}", SHIFT_JIS.decode(&out).0),
+        Ok(Err(e)) => println!("P2b error {e}"),
+        Err(_) => println!("P2b PANIC (debug_assert in eq_case_insensitive)"),
+    }
     match r {
         Ok(Ok(out)) => println!("P2 shift_jis output bytes: {:02x?}  = {:?}", out, SHIFT_JIS.decode(&out).0),
         Ok(Err(e)) => println!("P2 error {e}"),
